@@ -10,7 +10,7 @@ LEAN_MODULES = ["ShootVerif.Props.C03", "ShootVerif.Props.C03Facts"]
 USES_FACTS = True
 DRIVER = "shootmodel_new"
 MANIFEST = dict(
-    text="Lean 4 theorems over a model of -getset (parseGetSet/parseGetterSetter of fields.go, makeGetSet of getset.go incl. the once-per-name filter over non-shadowed entries, getter/setter/TGetter/TSetter of constructor.tmpl): for EVERY struct tree with unambiguous visible names the emitted getters/setters are exactly the own unexported non-skipped fields whose field directive and type-level directive want them, in declaration order (C03_table_getters, C03_table_setters), named Pascal / Set+Pascal (C03_names); get(set f v s) = v and set changes nothing else (C03_get_set, C03_frame); TGetter/TSetter = embedded accessor interfaces' methods + own accessors, emitted iff non-empty (C03_iface); a `get` that follows a default of any shape in the doc comment is still read (C03_get_after_def, over the directive recognisers). Tied to the code by generating struct packages with every directive combination and embedded shoot types, running the rebuilt `shoot new -getset`, compiling, and by reflection: own method lists, interface method sets, *T implements them, every setter called on a dirtied receiver and ALL leaves and getters read back. Execution includes multi-type invocations (a generic companion type embedding a shoot type, with restrictions on fields named like T's, processed first) and structs embedding a pointer to themselves.",
+    text="Lean 4 theorems over a model of -getset (parseGetSet/parseGetterSetter of fields.go, makeGetSet of getset.go incl. the once-per-name filter over non-shadowed entries, makeNew's name-keyed TypeMap from which the template takes every accessor's type [C03_accessor_types: it answers with the type of the very field for every visible leaf], getter/setter/TGetter/TSetter of constructor.tmpl): for EVERY struct tree with unambiguous visible names the emitted getters/setters are exactly the own unexported non-skipped fields whose field directive and type-level directive want them, in declaration order (C03_table_getters, C03_table_setters), named Pascal / Set+Pascal (C03_names); get(set f v s) = v and set changes nothing else (C03_get_set, C03_frame); TGetter/TSetter = embedded accessor interfaces' methods + own accessors, emitted iff non-empty (C03_iface); a `get` that follows a default of any shape in the doc comment is still read (C03_get_after_def, over the directive recognisers). Tied to the code by generating struct packages with every directive combination and embedded shoot types, running the rebuilt `shoot new -getset`, compiling, and by reflection: own method lists, interface method sets, *T implements them, every setter called on a dirtied receiver and ALL leaves and getters read back. Execution includes multi-type invocations (a generic companion type embedding a shoot type, with restrictions on fields named like T's, processed first) and structs embedding a pointer to themselves.",
     note="Lean kernel + standard axioms; EGetter/ESetter method sets of embedded shoot types are inputs (computed by running the model on the embedded type first); own-method lists are read from the generated source with a regexp; bool values are only told apart from zero.",
     technique="Lean 4 proof (list/filter correspondence between the generator's flat list and the struct's own fields; decision table by case split) + differential correspondence with executed accessors",
     design="5/C03")
